@@ -18,7 +18,7 @@ LEVEL_TEXT = (
     'lengths) are value-level statements that no structural rule here decides: a change that breaks '
     'them while keeping the shape is NOT detected.')
 
-FLOORS = {'C20-R1': 3, 'C20-R2': 3, 'C20-R3': 2, 'C10-R5': 2, 'C20-R4': 5}
+FLOORS = {'C20-R1': 3, 'C20-R2': 3, 'C20-R3': 2, 'C10-R5': 2, 'C20-R4': 6}
 
 DNM = 'util::densenatmap::DenseNatMap'
 
@@ -152,6 +152,42 @@ def run(ctx):
                   good='the hashed slice is a prefix of the clock\'s components',
                   bad='VectorClock::hash does not hash the clock components')
         vclock_no_binary_search(ctx, F)
+        vclock_operators_follow_partial_cmp(ctx, F)
+
+
+def vclock_operators_follow_partial_cmp(ctx, F):
+    """`<`, `<=`, `>`, `>=` on vector clocks are the provided methods of PartialOrd, i.e. they are defined by
+    partial_cmp. An override in the impl is a second implementation of the order: it is accepted only when it
+    asks partial_cmp (and then only looks at the Ordering) - one that walks the components itself can disagree
+    with partial_cmp (e.g. a `zip` that stops at the shorter clock)."""
+    ims = [im for im in F.impls_of('PartialOrd') if im['self_tree'].get('path') == 'util::vector_clock::VectorClock']
+    if len(ims) != 1:
+        raise AnchorMissing('impl PartialOrd for VectorClock (found %d)' % len(ims))
+    names = sorted(it['name'] for it in ims[0]['provided'])
+    if 'partial_cmp' not in names:
+        raise AnchorMissing('VectorClock::partial_cmp')
+    bad = []
+    for it in ims[0]['provided']:
+        if it['name'] == 'partial_cmp':
+            continue
+        body = F.bodies.get(it['path'])
+        if body is None:
+            bad.append(it['name'])
+            continue
+        ctx.touched(body)
+        nb = F.norm(body)
+        calls = [c for x in bodies_with_closures(F, nb) for c in x.calls if not c.exp]
+        asks = [c for c in calls if c.is_('PartialOrd::partial_cmp') and c.targs and 'VectorClock' in c.targs[0]]
+        other = [c for c in calls if c not in asks and not re.match(
+            r'^(std|core)::(option::Option|cmp::Ordering|cmp::PartialEq|cmp::impls)', c.decl or c.callee)]
+        if not asks or other:
+            bad.append(it['name'])
+    ctx.check(not bad, 'C20-R4', 'operators-follow-partial_cmp', ims[0]['path'],
+              good='the comparison operators of VectorClock are those partial_cmp defines (overrides: %s)' %
+                   ([n for n in names if n != 'partial_cmp'] or 'none'),
+              bad='impl PartialOrd for VectorClock overrides %s with code that does not go through partial_cmp: the '
+                  'operators and partial_cmp are two implementations of the order that can disagree (antisymmetry, '
+                  'strict increase and the least upper bound are then broken for the operator)' % bad)
 
 
 def vclock_no_binary_search(ctx, F):
